@@ -773,6 +773,25 @@ impl<'r> Gen<'r> {
             let name = self.fresh("a");
             out.push(GAttr { name, value: None });
         }
+        // the same attribute twice in ONE statement: equal value is accepted, a different one
+        // must make the run fail (in both modes, on nodes and on edges)
+        if self.rng.chance(1, 30) {
+            let first = out[0].clone();
+            if !self.shorthands.iter().any(|(n, _)| *n == first.name) {
+                let same = self.rng.chance(1, 2);
+                let value = if same {
+                    match &first.value {
+                        Some(v) if !matches!(v, GExpr::Call(..) | GExpr::ListComp { .. } | GExpr::SetComp { .. } | GExpr::List(_) | GExpr::Set(_)) => Some(v.clone()),
+                        None => None,
+                        _ => Some(GExpr::str("certainly different 1")),
+                    }
+                } else {
+                    Some(GExpr::str("certainly different 2"))
+                };
+                out.push(GAttr { name: first.name, value });
+                self.feature("attribute_twice_in_one_statement");
+            }
+        }
         out
     }
 
